@@ -32,6 +32,8 @@ ROBOTS = {
                  'User-agent: *\nDisallow: /\n',
     'prefix-nonl': 'User-agent: *\nDisallow: /priv',          # no final newline
     'query': 'User-agent: *\nDisallow: /open?x=1\nDisallow: /pub/y?\n',
+    # rule paths in raw UTF-8 (the file is served as UTF-8) and percent-encoded
+    'utf8': 'User-agent: *\nDisallow: /caf\u00e9/\nDisallow: /%E3%83%84\nDisallow: /priv\n',
 }
 SERVE = ['plain', 'chunked', 'redirect', 'redirect-body', 's500', 's404', 's403']
 REDIRECT_BODY = ('<html><head><title>301 Moved Permanently</title></head><body><center>'
@@ -42,7 +44,13 @@ LINKS = ['/priv/x', '/pub/y', '/priv/ok/z', '/priv2', '/open', '/pub/../priv/w']
 QUERY_LINKS = ['/open', '/open?x=1', '/open?x=2', '/pub/y?z', '/pub/y']
 
 
+UTF8_LINKS = ['/caf%C3%A9/x', '/caf\u00e9/y', '/%E3%83%84', '/\u30c4/z', '/open', '/cafe/ok',
+              '/priv/x']
+
+
 def links_for(params):
+    if params['robots'] == 'utf8':
+        return UTF8_LINKS
     return QUERY_LINKS if params['robots'] == 'query' else LINKS
 
 
@@ -248,9 +256,8 @@ def judge(params, site, ua, out, events):
                 return 'row %s is %s although robots.txt always fails' % (u, r['status'])
     if params.get('nofollow'):
         mr = params['nofollow'].lower()
-        nof = 'nofollow' in mr
-        if 'none' in mr:
-            return None     # "none" is not named by the property: either reading
+        # "none" is the documented short form of "noindex, nofollow"
+        nof = 'nofollow' in mr or 'none' in [t.strip() for t in mr.split(',')]
         fetched = {q['target'] for q in out['requests']}
         if nof:
             for h in ('/hidden1', '/hidden2', '/hidden3', '/hidden4'):
@@ -290,7 +297,7 @@ def jobs(tier, seed):
     for rb in ('prefix', 'absent'):
         for conc in (1,) if tier == 'quick' else (1, 2):
             js.append(dict(params=dict(robots=rb, redir=True, conc=conc), budget=0, prefix=[]))
-    for nf in ('nofollow', 'NOINDEX, NoFollow', 'none', 'index, follow'):
+    for nf in ('nofollow', 'NOINDEX, NoFollow', 'none', 'index, follow', 'noarchive, NONE'):
         js.append(dict(params=dict(robots='absent', nofollow=nf, conc=1), budget=0,
                        prefix=[]))
         js.append(dict(params=dict(robots='prefix', nofollow=nf, conc=2), budget=0,
